@@ -80,6 +80,17 @@ HAND += [
     H("c07_pong_other_kinds", "c07", "C07", unwind=42, cost=120,
       bounds="every non-TINY packet kind (variant list generated from packet.rs), Default payload",
       functions=["insim::Packet::maybe_pong"]),
+    # ---- C08 (write half, blocking adaptor) -----------------------------------------------------
+    H("c08_udp_write_4", "c08", "C08", unwind=20, cost=10, bounds="UdpStream::write of a 4-byte frame, content symbolic; UdpSocket::send stubbed (records datagrams)",
+      functions=["<insim::net::blocking_impl::UdpStream as Write>::write"], kani_flags=("-Z", "restrict-vtable")),
+    H("c08_udp_write_12", "c08", "C08", unwind=20, cost=10, bounds="UdpStream::write of a 12-byte frame, content symbolic",
+      functions=["<insim::net::blocking_impl::UdpStream as Write>::write"], kani_flags=("-Z", "restrict-vtable")),
+    H("c08_framed_udp_two_packets", "c08", "C08", unwind=20, cost=120, timeout=900,
+      bounds="blocking Framed over UdpStream, two packets (frames of 4 and 8 symbolic bytes from the encoder model)",
+      functions=["insim::net::blocking_impl::Framed::write", "std::io::Write::write_all", "<UdpStream as Write>::write"],
+      kani_flags=("-Z", "restrict-vtable")),
+    H("c08_twin_must_fail", "c08", "C08", tier="thorough", expect="fail", unwind=20, cost=10,
+      bounds="vacuity twin: claims nothing is ever sent; must be refuted", kani_flags=("-Z", "restrict-vtable")),
     # ---- C09 ------------------------------------------------------------------------------------
     H("c09_gate_every_version", "c09", "C09", unwind=8, cost=20,
       bounds="insimver: u8 = any(), reqi any, other VER fields default",
@@ -238,6 +249,11 @@ PROPERTY_NOTES = {
         "bounds": "Packet::maybe_pong / Tiny::is_keepalive: request id any u8 x every TinyType variant; every other packet kind (Default payload)",
         "outside": "the connection's use of the function (reply written once, before returning the keep-alive, nothing else written): Framed::read does not close",
         "assumptions": ["stubs: alloc::fmt::format, std::hash::RandomState::new"],
+    },
+    "C08": {
+        "bounds": "WRITE half of the blocking UDP adaptor: UdpStream::write of 4- and 12-byte frames (content symbolic); two packets through blocking Framed over UdpStream (frames from the encoder model)",
+        "outside": "the READ half (UdpStream::read: out of memory even with concrete datagram and read sizes); the tokio UDP adaptor (needs a reactor); long sessions",
+        "assumptions": ["stubs: std::net::UdpSocket::send -> records the datagram and reports the full length (a datagram socket sends all or fails); insim::net::Codec::encode -> frame model; kani flag -Z restrict-vtable"],
     },
     "C09": {
         "bounds": "Packet::maybe_verify_version: all 256 InSim versions; every other packet kind; insim::VERSION == 9",
